@@ -155,6 +155,15 @@ def gen_inputs(ctx, fmt, v, n):
         # z at the top of the range with a small product that is a (near-)half-integer multiple of ulp(z) of the opposite
         # sign: the sum ties / almost ties in the last binade and every auxiliary of the 2Sums brushes the overflow threshold
         out.extend(_z_at_top(fmt, rng, max(8, n // 8)))
+    if clause in ("fma", "muladd"):
+        # x*y + z within a hair of a rounding TIE of the final result (either side, and exactly on it): z = (K + 1/2) ulp - x*y + delta,
+        # |delta| from one unit of z's last place down to nothing.  The second-level sums of the algorithms see |w| ~ ulp/2 there, which is
+        # the only place where the sign of w, the 3/2 w probe and the 9/8 - 7/8 factors decide a result two ulps apart (a first-order
+        # mutant `zh - w` for `zh + w` survived without this stream)
+        for _ in range(max(12, n // 5)):
+            t = _near_tie(fmt, rng, lo, hi)
+            if t is not None:
+                out.append(t)
     for i in range(n - len(out)):
         r = rng.random()
         if r < 0.35:
@@ -174,6 +183,51 @@ def gen_inputs(ctx, fmt, v, n):
         else:
             out.append(tuple(fpx.directed_patterns(rng, fmt, nargs, lo, hi)))
     return out
+
+
+def _near_tie(fmt, rng, lo, hi):
+    p, ew, w = fpx.FMT[fmt]
+    if rng.random() < 0.5:
+        # ULTRA-near ties, closer to the tie than the first-level error terms can see: x*y = -+(U/2)(1 - 2^-2a) with x = 1 + 2^-a,
+        # y = (1 - 2^-a) U/2 (exact 2p-bit product), z = m U with a full p-bit m: x*y + z = (m -+ 1/2) U +- U 2^-(2a+1), a in [p/2, p-1]
+        bias = (1 << (ew - 1)) - 1
+        a = rng.randrange((p + 1) // 2, p)
+        e = rng.randrange(-(bias // 3), bias // 3)              # U = 2^e
+        m = rng.randrange(1 << (p - 1), 1 << p)
+        sz = rng.choice([1, -1])
+        sp = rng.choice([1, -1])
+        X = Fraction(1) + Fraction(1, 2 ** a)
+        Y = (Fraction(1) - Fraction(1, 2 ** a)) * Fraction(2) ** (e - 1) * sp
+        Z = Fraction(m) * Fraction(2) ** e * sz
+        if rng.random() < 0.25:
+            Y = Fraction(2) ** (e - 1) * sp * rng.choice([1, 3])   # exactly on the tie (or on 3/2 U)
+        xb, yb, zb = fpx.round_ne(X, fmt), fpx.round_ne(Y, fmt), fpx.round_ne(Z, fmt)
+        if rng.random() < 0.5:
+            xb, yb = yb, xb
+        if all(fpx.is_finite(b, fmt) for b in (xb, yb, zb)) and fpx.to_fraction(xb, fmt) * fpx.to_fraction(yb, fmt) == X * Y:
+            return (xb, yb, zb)
+        return None
+    xb, yb = fpx.directed_patterns(rng, fmt, 2, max(lo, 1), hi)
+    x, y = fpx.to_fraction(xb, fmt), fpx.to_fraction(yb, fmt)
+    if not x or not y:
+        return None
+    P = x * y
+    r0 = fpx.round_ne(P, fmt)
+    d = fpx.decode(r0, fmt)
+    if d[0] != "fin" or d[2] == 0:
+        return None
+    ulp = Fraction(2) ** max(d[3] + d[2].bit_length() - p, fpx.emin(fmt))
+    K = P // ulp + rng.choice([-2, -1, 0, 0, 1, 2, 3]) * rng.choice([1, 1, 1, 1 << (p // 2), (1 << (p - 2))])
+    j = rng.choice([None, None] + list(range(1, p + 4)))
+    delta = Fraction(0) if j is None else rng.choice([-1, 1]) * ulp / 2 ** j
+    T = (K + Fraction(1, 2)) * ulp + delta
+    zb = fpx.round_ne(T - P, fmt)
+    if not fpx.is_finite(zb, fmt):
+        return None
+    z = fpx.to_fraction(zb, fmt)
+    if z is None or not fpx.is_finite(fpx.round_ne(P + z, fmt), fmt):
+        return None
+    return (xb, yb, zb)
 
 
 def _z_at_top(fmt, rng, count):
